@@ -108,7 +108,7 @@ theorem inEdges_of_inst {ctx : Ctx} {g : Graph} (h : Inv ctx g) {n : Nat} {nd : 
     cases hkk : nd.kind <;> simp [hkk] at hk hi
   | dep =>
     rw [hek] at hk
-    simp only at hk
+    have hk := (dep_isDef hk).2
     unfold Node.isDef at hk
     unfold Node.isInst at hi
     cases hkk : nd.kind <;> simp [hkk] at hk hi
